@@ -33,6 +33,16 @@ theorem outcome (k : Kind) (ig : Bool) (ls : List Lbl) (s : S) (o : COut)
   have : s.kind = k := by simpa [init] using hk
   rw [← this]; exact hok
 
+/-- C16.caller_cancel_wins: if `cancel()` reached the caller while it was still waiting (the label is
+only enabled then) – in particular in the window between the result future being completed and the
+caller resuming – the caller ends cancelled, whatever value, exception or timeout the future holds. -/
+theorem caller_cancel_wins (k : Kind) (ig : Bool) (ls : List Lbl) (s : S) (o : COut)
+    (hrun : run (init k ig) ls = some s) (hdone : s.caller = .done o)
+    (hc : ls.contains .callerCancel = true) : o = .cancelled := by
+  have h := outcome k ig ls s o hrun hdone
+  have hcc : (ls.foldl see {}).cc = true := by rw [see_cc, hc]; simp
+  simpa [expected, hcc] using h.symm
+
 /-- C16.outcome, state form: at every reachable state where the caller holds an outcome it is
 the expected one. -/
 theorem outcome_state (k : Kind) (ig : Bool) (s : S) (o : COut)
@@ -148,6 +158,12 @@ example :
 example :
     (run (init .val false) [.timerFires, .callerCancel, .runResult, .callerWakes]).map (·.caller)
       = some (.done .cancelled) := by decide
+
+/-- the window of `caller_cancel_wins`: function finished, its value is already in the future, the
+caller is cancelled before it resumes ⇒ cancelled -/
+example :
+    (run (init .val false) [.taskEnds, .runCompletion, .callerCancel, .runResult, .callerWakes]).map
+        (·.caller) = some (.done .cancelled) := by decide
 
 /-- a state that satisfies the hypotheses of `cleanup` with the timer still armed -/
 example :
